@@ -89,7 +89,8 @@ func (f *MemFile) Chmod(mode fs.FileMode) error {
 	defer nd.Unlock()
 
 	if !nd.setMode(mode, f.vfs.User()) {
-		return &fs.PathError{Op: op, Path: f.name, Err: f.vfs.err.PermDenied}
+		// only the owner of the file or the administrator may change its mode, as for Chmod by name.
+		return &fs.PathError{Op: op, Path: f.name, Err: f.vfs.err.OpNotPermitted}
 	}
 
 	return nil
@@ -127,7 +128,8 @@ func (f *MemFile) Chown(uid, gid int) error {
 	nd.Lock()
 	defer nd.Unlock()
 
-	if !nd.checkPermission(avfs.OpenWrite, f.vfs.User()) {
+	if !nd.mayChown(uid, gid, f.vfs.User()) {
+		// write permission on the file is not what allows to change its owner.
 		return &fs.PathError{Op: op, Path: f.name, Err: f.vfs.err.OpNotPermitted}
 	}
 
